@@ -17,11 +17,13 @@ coqproject-locked:
 	@cd $(COQDIR) && if ! cmp -s _CoqProject.new _CoqProject; then mv _CoqProject.new _CoqProject; coq_makefile -f _CoqProject -o Makefile; else rm -f _CoqProject.new; fi
 	@cd $(COQDIR) && [ -f Makefile ] || coq_makefile -f _CoqProject -o Makefile
 
+# A file that does not build must not stop the others nor the setup: every check rebuilds the closure of its own
+# property and reports what does not check there.
 coq: coqproject
-	cd $(COQDIR) && timeout 3000 $(MAKE) -k -j$(J)
+	cd $(COQDIR) && { timeout 3000 $(MAKE) -k -j$(J) || echo "SETUP NOTE: some Coq files did not build; the checks of the properties that depend on them report it"; }
 
 drivers: coq
-	python3 -c "import sys; sys.path.insert(0,'.'); from vlib import engine; engine.build_all_drivers()"
+	python3 -c "import sys; sys.path.insert(0,'.'); from vlib import engine; engine.build_all_drivers()" || echo "SETUP NOTE: some drivers did not build"
 
 clean:
 	cd $(COQDIR) && { [ -f Makefile ] && $(MAKE) clean; rm -f Makefile Makefile.conf _CoqProject *.ml *.mli .build.lock .project.lock; true; }
